@@ -18,7 +18,8 @@ RULE = ("sqlite3 :memory: table tb(id INTEGER unique non-null, n INTEGER, s TEXT
         "_or(...) groups with kwargs, static string conditions, None arguments, kwargs filters, _order_by asc/desc/absent, "
         "_as_scalars; entry points list/all/one/one_or_none and SqlMethodT.list, both placeholder styles. Non-trivial = "
         "tree has an OR group, or an empty / None-containing list, or a negative operator (!=, NOT IN, NOT LIKE, <, >, "
-        "<=, >=) facing a NULL cell; distinct by (rows, conditions) hash.")
+        "<=, >=) facing a NULL cell; distinct by (rows, conditions) hash."
+        " Also: bytes operands; keyword filters on columns _n / _s; four select texts (neutral joins of derived tables with their own WHERE, unnameable result columns); condition objects reused inside other _or groups; a failing request carrying valid conditions first.")
 ASSUMPTIONS = [
     "values keep to the column's type (ints for INTEGER, str for TEXT) so SQLite cross-type ordering never decides",
     "SQLite LIKE = ASCII-case-insensitive %/_ glob without escape character; strings are ASCII printable",
